@@ -332,6 +332,38 @@ func runC19() *RunResult {
 				}
 				t.ops = append(t.ops, cp)
 			}
+			if it.Cfg.Present && !it.Cfg.Replaced && chance(10) {
+				// the API takes a variadic list of Configs.  A call that passes the caller's kept
+				// Config together with another one (whatever the library makes of the second one:
+				// that call is not judged) must not change the kept Config: parsing with it alone
+				// afterwards must behave as in a fresh process.
+				other := genCfg(true)
+				other.Present = true
+				if other.Funcs == 0 {
+					other.Funcs = 1<<nFuncs - 1
+				}
+				other.Variant = (it.Cfg.Variant + 1) % 3
+				mc := &Op{Kind: opCustom, Path: &PathSpec{Text: it.Path + "  (kept Config passed together with another Config, then alone)"}, Cfg: it.Cfg}
+				mc.Do = func(t *Task, o *Op) {
+					if c19Expect == nil {
+						return
+					}
+					base := buildConfig(it.Cfg)
+					simrt.OpStart()
+					_, o.Got = safeParse(it.Path, []jsonpath.Config{base, buildConfig(other)}, 0)
+					t.probe("call-with-two-configs")
+					_, got, _ := execItem(it, []jsonpath.Config{base}, 0, &t.rec)
+					if simrt.Aborted() != 0 {
+						return
+					}
+					t.judged++
+					if got.String() != c19Expect[item] {
+						t.fail("C19:outcome-differs-from-first-call-in-fresh-process", it.Path,
+							fmt.Sprintf("Parse(%q, %s) after the same Config value had been passed to an earlier call together with %s\n  got               %s\n  fresh process got %s", it.Path, it.Cfg, other, clip(got.String(), 600), clip(c19Expect[item], 600)))
+					}
+				}
+				t.ops = append(t.ops, mc)
+			}
 			if it.Fail == "" && it.Cfg.Present && it.Cfg.Funcs != 0 && chance(12) {
 				// a function returned by Parse is used and one of its user functions panics (the
 				// caller recovers): not judged itself; whatever is parsed or called afterwards is
